@@ -25,11 +25,31 @@ GETTERS = ("get_parameter", "get_probabilities", "get_sample")
 def run(prog, tier):
     # "rows together with their own log-probabilities": a row and its log-probability are written together, from one proposal,
     # by every step function - the clause C14 shares with C03, decided there
+    # a read-out returns what the stores hold NOW: a remembered copy of a store must be keyed on more than its length wherever
+    # the program overwrites stored items in place (replace_last after a temperature exchange).  Decided first, on the classes as
+    # written too: a definite verdict here stands even when the getters below no longer read the stores directly.
+    from .common import size_keyed_obligations
+    memo_cls = [prog.classes[c_] for c_ in ("Parameter", "MarkovChain", "MetropolisChain", "GibbsChain", "PcaChain", "HamiltonianChain",
+                                            "EnsembleSampler") if c_ in prog.classes]
+    early = size_keyed_obligations(prog, "read-out-current", memo_cls)
+    rawp = prog.as_written()
+    for o_ in size_keyed_obligations(rawp, "read-out-current", [rawp.classes[c_.name] for c_ in memo_cls if c_.name in rawp.classes]):
+        if not o_.ok and not any(x.construct == o_.construct and not x.ok for x in early):
+            early.append(o_)
     from .common import borrow
+    try:
+        from . import mcmc as _m
+        for cname in GETTER_CLASSES:
+            _m.derive_stores(prog, cname)
+    except AnalysisError:
+        if any(not o_.ok for o_ in early):
+            return early, {}, {"explanation": "a read-out returns a remembered copy that can be stale; remaining rules not evaluated"}
+        raise
     shared = borrow(prog, tier, "C03", {"pair-append", "walker-pair", "ensemble-append", "append-provenance"}, "rows-stored-with-own-probability",
                     "a read-out row can only come with its own log-probability if both were stored together from the same proposal")
     anf.reset()
     obs, info = [], []
+    obs.extend(early)
     obs.extend(shared)
     classes = list(GETTER_CLASSES)
     if tier == "thorough":
